@@ -2,6 +2,8 @@
 from __future__ import annotations
 
 from rules import adapter, bec2, bf3
+from rules import stackbec2
+from rules import stackrt
 
 LEVEL = "other"
 
@@ -25,4 +27,5 @@ def run(prog, chk, tier):
 
     c08.frame_builder_rules(prog, chk, "C02")
     c08.frame_parser_rules(prog, chk, "C02")
+    stackrt.guarded(chk, "C02.stack-bec2", stackbec2.bec2_file_rules, prog, chk, "C02", tier, want=("roundtrip", "same-key"))
     chk.assume("session keys are KEY_SIZE = 16 bytes (Bec2File draws random_bytes(16)); BF3 body clauses are decided under C01/C03/C05")
